@@ -5,6 +5,7 @@ mod c12;
 mod c13;
 mod c14;
 mod crash;
+mod faults;
 mod dbsim;
 mod lsm;
 mod shard;
@@ -50,6 +51,21 @@ fn main() {
                 let secs = if tier == "thorough" { 3000 } else { 420 };
                 shard::run_sharded(&mut rep, "lsm", &pass, n, std::time::Duration::from_secs(secs), "c09:operation-hangs");
                 rep.rule = lsm::rule().to_string();
+                rep
+            }
+        }
+        "c08" => {
+            let sh = shard::parse_shard(&args);
+            let cdir = format!("{corpus}/C08");
+            if sh.is_some() || replay.is_some() || std::env::var("VERIF_NOSHARD").is_ok() {
+                faults::run(&tier, seed, replay.as_deref(), &cdir, sh)
+            } else {
+                let mut rep = report::Report::new("c08", faults::rule());
+                let n = par::threads();
+                let pass: Vec<String> = vec!["--tier".into(), tier.clone(), "--seed".into(), seed.to_string(), "--corpus".into(), corpus.clone()];
+                let secs = if tier == "thorough" { 3000 } else { 500 };
+                shard::run_sharded(&mut rep, "c08", &pass, n, std::time::Duration::from_secs(secs), "c09:operation-hangs");
+                rep.rule = faults::rule().to_string();
                 rep
             }
         }
